@@ -48,7 +48,7 @@ def run(tier, rep):
     thorough = tier == 'thorough'
     N = 4  # 5 characters took 2.4 h on this machine; the thorough tier adds the cross-solver runs and longer frames
     with Scratch() as sc:
-        FN = 5 if thorough else 4
+        FN = 4  # 5 exceeded the memory bound of a path on this machine
         fs = files(sc, N, FN)
         res = run_gosym(cfg(fs, 'harnessC09Whole', tier), sc, 'whole', timeout=6 * 3600)
         merge_gosym(rep, res, 'nfa.Parse + real combinator parser on every printable-ASCII text of <= %d characters: accepted => whole text is a sentence of the documented grammar' % N)
